@@ -182,8 +182,37 @@ def omitted_variant(ctx, rng, doc):
     return "".join(s for i, (s, t) in enumerate(pcs) if i not in removed)
 
 
+def numeric_ref_is_error(cp):
+    """The standard's numeric character reference end state: null, out of range, surrogate, noncharacter, C0 control other
+    than ASCII whitespace (U+000D is a control here), U+007F..U+009F."""
+    return (cp == 0 or cp > 0x10FFFF or 0xD800 <= cp <= 0xDFFF or 0xFDD0 <= cp <= 0xFDEF or (cp & 0xFFFE) == 0xFFFE or
+            (cp < 0x20 and cp not in (9, 10, 12)) or 0x7F <= cp <= 0x9F)
+
+
+def numeric_boundaries():
+    cps = [0, 1, 8, 9, 0xA, 0xB, 0xC, 0xD, 0xE, 0x1F, 0x20, 0x7E, 0x7F, 0x80, 0x9F, 0xA0, 0xD7FF, 0xD800, 0xDFFF, 0xE000,
+           0xFDCF, 0xFDD0, 0xFDEF, 0xFDF0, 0x10FFFF, 0x110000]
+    for plane in range(17):
+        cps += [plane * 0x10000 + 0xFFFD, plane * 0x10000 + 0xFFFE, plane * 0x10000 + 0xFFFF, (plane + 1) * 0x10000]
+    return sorted(set(cps))
+
+
 def shard(ctx):
     k = 0
+    # numeric character references at every edge of the standard's error ranges, in an otherwise conforming document:
+    # one side of each edge must record an error, the other side must not
+    for cp in numeric_boundaries():
+        for spelling in ("&#x%X;" % cp, "&#%d;" % cp):
+            k += 1
+            if not ctx.mine(k):
+                continue
+            ctx.count("numeric_reference_boundary_cases")
+            for where in ("<p>%s</p>", "<p title=\"%s\">x</p>"):
+                data = "<!DOCTYPE html><html><head><title>t</title></head><body>" + where % spelling + "</body></html>"
+                if numeric_ref_is_error(cp):
+                    judge_injected(ctx, {"input": data, "frag": False, "injected": "numeric-ref-boundary"})
+                else:
+                    judge(ctx, {"input": data, "frag": False, "conforming": True}, conforming=True)
     for sp in EOF_SPELLINGS:
         for cut in range(1, len(sp) + 1):
             k += 1
